@@ -384,3 +384,59 @@ func heapIndexTerms(t string, max int) []string {
 	walk(t)
 	return out
 }
+
+// fieldReadsOf: subterms (select (select |H_..| ref) off) of t that mention one of the skolem
+// constants, with the element sort of the heap
+func (u *unit) fieldReadsOf(t string, sk []binder, max int) []binder {
+	var out []binder
+	seen := map[string]bool{}
+	mentions := func(x string) bool {
+		for _, b := range sk {
+			if strings.Contains(x, b.name) {
+				return true
+			}
+		}
+		return false
+	}
+	var walk func(x string)
+	walk = func(x string) {
+		if len(out) >= max || !strings.Contains(x, "|H_") {
+			return
+		}
+		p := splitSexp(x)
+		if p == nil {
+			return
+		}
+		if p[0] == "forall" || p[0] == "exists" {
+			return
+		}
+		if p[0] == "select" && len(p) == 3 {
+			if q := splitSexp(p[1]); q != nil && q[0] == "select" && len(q) == 3 && strings.HasPrefix(q[1], "|H_") && mentions(x) && !seen[x] {
+				if d, ok := u.decls[q[1]]; ok {
+					// (declare-const |name| (Array Int (Array OFF ELEM)))
+					if i := strings.LastIndex(d, ") "); i >= 0 {
+					}
+					if j := strings.Index(d, "(Array Int (Array "); j >= 0 {
+						rest := d[j+len("(Array Int (Array "):]
+						// skip the offset sort
+						k := 0
+						if strings.HasPrefix(rest, "(") {
+							k = strings.Index(rest, ")") + 1
+						} else {
+							k = strings.Index(rest, " ")
+						}
+						el := strings.TrimSpace(rest[k:])
+						el = strings.TrimSuffix(el, ")))")
+						seen[x] = true
+						out = append(out, binder{x, el})
+					}
+				}
+			}
+		}
+		for _, a := range p[1:] {
+			walk(a)
+		}
+	}
+	walk(t)
+	return out
+}
